@@ -309,14 +309,14 @@ fn stepwise_program(m0: &MState, origin: &str, g: &mut Xo, rep: &mut Report) {
 
 pub fn run(args: &Args) -> i32 {
     let shapes = all_shapes();
-    let draws = args.tier.pick(6, 60);
+    let draws = args.tier.pick(60, 600);
     let mut rep = run_shards(shapes.len(), args.threads, 64 << 20, |i| {
         let mut rep = Report::new();
         matrix_shard(&shapes[i], args.seed, draws, &mut rep);
         rep
     });
     let shards = 64;
-    let per = args.tier.pick(1_500, 30_000);
+    let per = args.tier.pick(12_000, 200_000);
     let progs = run_shards(shards, args.threads, 256 << 20, |s| {
         let mut rep = Report::new();
         for n in 0..per {
